@@ -1015,8 +1015,6 @@ class Server:
                             asyncio.create_task(self.parse_command(stream)),
                         )
                         cmd, rest = result
-                        if cmd not in ("retr", "stor", "appe"):
-                            connection.restart_offset = 0
                         f = self.commands_mapping.get(cmd)
                         if f is None:
                             coro = self._not_implemented(connection, cmd)
@@ -1027,7 +1025,12 @@ class Server:
                         # commands of one session are handled and answered
                         # in order they arrived: handler starts when
                         # handlers of previous commands returned
-                        coro = self._run_after(handlers.copy(), connection, coro)
+                        coro = self._run_after(
+                            handlers.copy(),
+                            connection,
+                            coro,
+                            cmd in ("retr", "stor", "appe"),
+                        )
                         task = asyncio.create_task(coro)
                         handlers.add(task)
                         pending.add(task)
@@ -1076,13 +1079,18 @@ class Server:
             connection.restart_offset = 0
 
     @staticmethod
-    async def _run_after(tasks, connection, coro):
+    async def _run_after(tasks, connection, coro, keeps_offset=True):
         try:
             if tasks:
                 await asyncio.wait(tasks)
         except BaseException:
             coro.close()
             raise
+        if not keeps_offset:
+            # any command but transfer ends restart offset, when its turn
+            # comes (not when it is read: handler of an earlier transfer
+            # command may not have looked at offset yet)
+            connection.restart_offset = 0
         try:
             return await coro
         except errors.PathIOError:
